@@ -147,7 +147,7 @@ func (fx *Fx) builtinCall(st *State, name string, call *ast.CallExpr, spec bool)
 			}
 			ss := fx.d.sortOf(t)
 			arr := fx.d.constArray(fx.d.sortOf(u.Elem()), fx.d.zeroOf(u.Elem()))
-			return []Val{{T: t, S: ss, X: app("mk_"+ss, arr, n.X)}}
+			return []Val{{T: t, S: ss, X: app("mk_"+ss, arr, n.X, n.X, fx.alloc(st, "backing"))}}
 		case *types.Map:
 			return []Val{fx.newMap(st, t, u)}
 		case *types.Chan:
@@ -177,6 +177,9 @@ func (fx *Fx) builtinCall(st *State, name string, call *ast.CallExpr, spec bool)
 		return []Val{fx.recoverCall(st)}
 	case "cap":
 		v := fx.eval(st, call.Args[0], spec)
+		if strings.HasPrefix(v.S, "Seq_") {
+			return intV(app("cap_"+v.S, v.X))
+		}
 		return intV(fx.seqLen(v))
 	case "Slice", "String":
 		// unsafe.Slice(unsafe.StringData(s), len(s)) and unsafe.String(unsafe.SliceData(b), len(b)): value conversions
@@ -212,15 +215,22 @@ func (fx *Fx) appendCall(st *State, call *ast.CallExpr, spec bool) Val {
 	}
 	arr := app("arr_"+s.S, s.X)
 	ln := fx.seqLen(s)
-	if parts, ok := fx.ctorArgsOf(s.X, "mk_"+s.S); ok && len(parts) == 2 {
+	if parts, ok := fx.ctorArgsOf(s.X, "mk_"+s.S); ok && len(parts) == 4 {
 		arr = parts[0]
 	}
 	for i, a := range call.Args[1:] {
 		v := fx.eval(st, a, spec)
 		arr = app("store", arr, app("+", ln, fmt.Sprint(i)), v.X)
 	}
-	fx.assumed["slices are value sequences: aliasing of backing arrays between distinct slices is not modelled"] = true
-	return Val{T: s.T, S: s.S, X: app("mk_"+s.S, arr, app("+", ln, fmt.Sprint(len(call.Args)-1)))}
+	fx.assumed["slices are value sequences with ghost capacity and backing identity: writes through one slice are not seen through another slice of the same backing array"] = true
+	// in place when the capacity suffices (same backing array), otherwise a fresh, larger backing array
+	nlen := app("+", ln, fmt.Sprint(len(call.Args)-1))
+	oldCap, oldBk := app("cap_"+s.S, s.X), app("bk_"+s.S, s.X)
+	inPlace := app("<=", nlen, oldCap)
+	ncap := fx.d.freshConst("newcap", SInt)
+	st.assume(app("<=", nlen, ncap))
+	nbk := fx.alloc(st, "backing")
+	return Val{T: s.T, S: s.S, X: app("mk_"+s.S, arr, nlen, ite(inPlace, oldCap, ncap), ite(inPlace, oldBk, nbk))}
 }
 
 // copyCall models copy(dst, src) for generic sequences; dst must be an addressable expression or a slice of one.
@@ -256,6 +266,8 @@ func (fx *Fx) copyCall(st *State, call *ast.CallExpr, spec bool) []Val {
 	st.assume(app("=", nv, n))
 	r := fx.d.freshConst("copydst", dst.S)
 	st.assume(app("=", app("len_"+dst.S, r), dlen))
+	st.assume(app("=", app("cap_"+dst.S, r), app("cap_"+dst.S, dst.X)))
+	st.assume(app("=", app("bk_"+dst.S, r), app("bk_"+dst.S, dst.X)))
 	st.assume(fmt.Sprintf("(forall ((i Int)) (! (= (select (arr_%s %s) i) (ite (and (<= %s i) (< i (+ %s %s))) (select (arr_%s %s) (- i %s)) (select (arr_%s %s) i))) :pattern ((select (arr_%s %s) i))))",
 		dst.S, r, lo, lo, nv, src.S, src.X, lo, dst.S, dst.X, dst.S, r))
 	fx.store(st, dp.loc, Val{T: dst.T, S: dst.S, X: r})
@@ -328,7 +340,7 @@ func (fx *Fx) packVariadic(st *State, sig *types.Signature, args []Val) []Val {
 	for i, a := range args[n:] {
 		arr = app("store", arr, fmt.Sprint(i), a.X)
 	}
-	packed := Val{T: vt, S: ss, X: app("mk_"+ss, arr, fmt.Sprint(len(args)-n))}
+	packed := Val{T: vt, S: ss, X: app("mk_"+ss, arr, fmt.Sprint(len(args)-n), fmt.Sprint(len(args)-n), fx.alloc(st, "backing"))}
 	return append(append([]Val(nil), args[:n]...), packed)
 }
 
@@ -826,6 +838,23 @@ func (fx *Fx) methID(name string) string {
 	return c
 }
 
+type namedGhost struct {
+	name string
+	val  Val
+}
+
+// keyMethGhost: ghost map key -> trace index of the call of method meth made for that key in map-range loop ord.
+func (fx *Fx) keyMethGhost(st *State, ord int, meth, keySort string) namedGhost {
+	name := fmt.Sprintf("callatkey%d_%s", ord, meth)
+	if g, ok := st.ghost[name]; ok {
+		return namedGhost{name, g}
+	}
+	gs := fmt.Sprintf("(Array %s Int)", keySort)
+	g := Val{S: gs, X: fx.d.declareConst(name+"@0", gs)}
+	st.ghost[name] = g
+	return namedGhost{name, g}
+}
+
 // untraced abstract callees: their results are arbitrary but they leave no entry in the ghost call trace
 // (pure observers whose calls no property talks about).
 var untraced = map[string]bool{"Logger": true, "Error": true, "Context": true, "Err": true, "Done": true}
@@ -862,6 +891,9 @@ func (fx *Fx) abstractCall(st *State, recv string, meth string, args []Val, sig 
 		if g, ok := st.ghost[gname]; ok {
 			st.ghost[gname] = Val{S: g.S, X: app("store", g.X, st.rangeKey, n)}
 		}
+		// per method: which call of this method was made for this key
+		mg := fx.keyMethGhost(st, st.rangeOrd, meth, st.rangeKeySort)
+		st.ghost[mg.name] = Val{S: mg.val.S, X: app("store", mg.val.X, st.rangeKey, n)}
 	}
 	for j, a := range args {
 		col := fmt.Sprintf("arg_%s_%d", meth, j)
@@ -960,6 +992,11 @@ func (fx *Fx) specBuiltin(st *State, call *ast.CallExpr) ([]Val, bool) {
 			delete(st.bound, name)
 		}
 		return []Val{r}, true
+	case "chanval":
+		// chanval(x): the (reference-sorted) value received by the chanrecv entry x; nil for a closed channel
+		k := fx.eval(st, call.Args[0], true)
+		fx.v.colSorts["arg_chanrecv_1"] = SRef
+		return []Val{{S: SRef, X: app("select", fx.trCol(st, "arg_chanrecv_1", SRef), k.X)}}, true
 	case "incase":
 		// incase(k): the k-th case of the innermost select was taken in this iteration
 		k := fx.eval(st, call.Args[0], true).X
@@ -1165,6 +1202,15 @@ func (fx *Fx) specBuiltin(st *State, call *ast.CallExpr) ([]Val, bool) {
 		l := fx.eval(st, call.Args[1], true)
 		k := fx.eval(st, call.Args[2], true)
 		return intV(app("ringidx", h.X, l.X, k.X)), true
+	case "cap", "backing":
+		a := fx.eval(st, call.Args[0], true)
+		if !strings.HasPrefix(a.S, "Seq_") {
+			panic(unsupported(id.Name + " of a non-slice"))
+		}
+		if id.Name == "cap" {
+			return intV(app("cap_"+a.S, a.X)), true
+		}
+		return []Val{{S: SRef, X: app("bk_"+a.S, a.X)}}, true
 	case "zeroelem":
 		a := fx.eval(st, call.Args[0], true)
 		et := elemType(a.T)
@@ -1315,6 +1361,13 @@ func (fx *Fx) specBuiltin(st *State, call *ast.CallExpr) ([]Val, bool) {
 	case "cloop":
 		k := fx.eval(st, call.Args[0], true)
 		return intV(app("select", fx.trCol(st, "rloop", SInt), k.X)), true
+	case "callatkeym":
+		// callatkeym(ord, "Meth", key): trace index of the call of Meth made for key in map-range loop ord
+		ord, _ := strconv.Atoi(fx.eval(st, call.Args[0], true).X)
+		meth := *fx.eval(st, call.Args[1], true).Lit
+		k := fx.eval(st, call.Args[2], true)
+		mg := fx.keyMethGhost(st, ord, meth, k.S)
+		return intV(app("select", mg.val.X, k.X)), true
 	case "callatkey":
 		ord := fx.eval(st, call.Args[0], true).X
 		k := fx.eval(st, call.Args[1], true)
